@@ -1,4 +1,5 @@
 """The check driver: proofs + correspondence + oracle -> verdict, replay, evidence."""
+import logging
 import hashlib, importlib, json, os, random, sys, time, traceback, zlib
 
 from . import coqrun
@@ -42,7 +43,7 @@ class Run:
         limit = int(getattr(self.mod, "CASE_TIMEOUT", 120))
         for c in cases:
             try:
-                o = run_with_timeout(self.mod.impl, c, limit)
+                o = run_with_timeout(lambda cc: call_impl(self.mod, cc), c, limit)
             except Exception as e:  # harness bug, not an observation
                 raise InfraError(f"impl runner crashed on {c!r}: {traceback.format_exc()[-1500:]}")
             try:
@@ -74,7 +75,8 @@ class Run:
                 if budget <= 0:
                     break
                 try:
-                    o = self.mod.impl(cand)
+                    if case.get("debug_log"): cand["debug_log"] = True
+                    o = call_impl(self.mod, cand)
                     f = self.mod.oracle(cand, o)
                 except Exception:
                     continue
@@ -111,6 +113,11 @@ class Run:
             if changed_anchors and self.tier == "quick":
                 rngx = random.Random(self.seed * 31 + 5 ^ zlib.crc32(prop.encode()))
                 gen = gen + mod.gen_cases(rngx, "search")
+        # every fourth generated case runs with the canopen logger at DEBUG (see call_impl)
+        if getattr(mod, "DEBUG_LOG_CASES", True):
+            for i, c in enumerate(gen):
+                if i % 4 == 3 and isinstance(c, dict):
+                    c["debug_log"] = True
         cases = corpus + gen
         dist = {}
         for c in cases:
@@ -156,7 +163,7 @@ class Run:
                     continue
                 seen.add(s)
                 c2 = self.shrink(c, s)
-                o2 = mod.impl(c2)
+                o2 = call_impl(mod, c2)
                 f2 = mod.oracle(c2, o2)
                 path = self.write_replay("oracle", dict(case=c2, impl_obs=o2, what=f2 if f2 else f,
                                                         signature=s))
@@ -172,13 +179,17 @@ class Run:
             if near:
                 for i in list(mism)[:20]:
                     extra = list(near(results[i][0], rng2)) + extra
+            if getattr(mod, "DEBUG_LOG_CASES", True):
+                for i, c in enumerate(extra):
+                    if i % 4 == 3 and isinstance(c, dict):
+                        c["debug_log"] = True
             sres = self.run_impl(extra)
             sf = [(c, o, f) for c, o, f in sres if f is not None and sigof(f) not in known_sigs]
             search_stats = dict(cases=len(extra), failures=len(sf))
             if sf:
                 c, o, f = sf[0]
                 c2 = self.shrink(c, sigof(f))
-                o2 = mod.impl(c2)
+                o2 = call_impl(mod, c2)
                 f2 = mod.oracle(c2, o2)
                 path = self.write_replay("oracle", dict(case=c2, impl_obs=o2, what=f2 if f2 else f,
                                                         signature=sigof(f), found_by="failing-input search",
@@ -257,6 +268,34 @@ class Run:
         return 1 if violations else 0
 
 
+class _Swallow(logging.Handler):
+    """formats every record (so that logging arguments are really evaluated) and drops it"""
+    def emit(self, record):
+        try:
+            record.getMessage()
+        except Exception:
+            pass
+
+
+def call_impl(mod, c):
+    """Run the implementation on a case.  Cases marked "debug_log" run with the `canopen` logger at DEBUG (records are
+    formatted and dropped): the log level is configuration an application is free to choose and must not change
+    any observable behaviour, so the same oracles and the same model apply."""
+    if not (isinstance(c, dict) and c.get("debug_log")):
+        return mod.impl(c)
+    lg = logging.getLogger("canopen")
+    h = _Swallow(level=logging.DEBUG)
+    old_disable = logging.root.manager.disable
+    old_level, old_prop = lg.level, lg.propagate
+    logging.disable(logging.NOTSET)
+    lg.setLevel(logging.DEBUG); lg.propagate = False; lg.addHandler(h)
+    try:
+        return mod.impl(c)
+    finally:
+        lg.removeHandler(h); lg.setLevel(old_level); lg.propagate = old_prop
+        logging.disable(old_disable)
+
+
 class _CaseTimeout(BaseException):
     pass
 
@@ -313,7 +352,7 @@ def replay(path):
         print("proof status now:", "ok" if pr["ok"] else pr["failing"])
         return 0 if pr["ok"] else 1
     c = j["case"]
-    o = mod.impl(c)
+    o = call_impl(mod, c)
     f = mod.oracle(c, o)
     print("case:", json.dumps(c))
     print("implementation observation:", repr(o))
